@@ -10,7 +10,7 @@ ID = "C07"
 LEVEL = "exploration"
 RULE = (
     "(a) bounded-exhaustive: every (table, queries) pair of multisets of <=2 rows x <=2 queries over coordinates 0..4 "
-    "(quick) or <=2 x <=3 over 0..6 (thorough), in 4 variants (second chromosome in neither/table/queries/both), all "
+    "(quick) or <=2 x <=3 over 0..5 (thorough), in 4 variants (second chromosome in neither/table/queries/both), all "
     "three modes x keep_empty, every in_range bound in {None, 0..max}; (b) Hypothesis: relation-biased tables up to 40 "
     "rows (nested, duplicate, abutting), queries that repeat/overlap, empty tables, single-chromosome fast path, "
     "non-default row index, in_range/in_ranges with start/end None or given, into_ranges over string/float columns with "
@@ -46,10 +46,10 @@ def enumerate_cases(tier):
         Qs = As
         top = 4
     else:
-        ivs = gen.intervals_upto(6)
+        ivs = gen.intervals_upto(5)
         As = list(gen.multisets(ivs, 2))
         Qs = list(gen.multisets(ivs, 3))
-        top = 6
+        top = 5
     k = 0
     for a in As:
         for q in Qs:
